@@ -245,6 +245,8 @@ def kind_cases(rng, thorough):
         out.append("gni %d %d" % (flags, 4))
     for flags in (0, 1, 2, 3, 8, 16, 19, 63):
         out.append("gni %d %d" % (flags, 6))
+    for fam in (0, 1, 3, 16, 17, 40):             # families uv_getnameinfo rejects (AF_UNSPEC, AF_UNIX, ...)
+        out.append("gni 0 %d" % fam)
     for _ in range(300 if thorough else 40):      # other integers: the table says "every flags value"
         out.append("gni %d %d" % (rng.choice([rng.randrange(64, 256), rng.randrange(256, 2 ** 31 - 1)]),
                                   rng.choice([4, 6])))
@@ -263,13 +265,22 @@ def describe_api(case):
         return "uv_getaddrinfo(node=%s, service=%s, ai_flags=%s)" % (t[2], t[3], "AI_NUMERICHOST" if t[1] == "1" else "0")
     f = int(t[1])
     names = "|".join(n for b, n in NI.items() if f & b) or "0"
-    return "uv_getnameinfo(%s, flags=%d = %s)" % ("::1" if t[2] == "6" else "127.0.0.1", f, names)
+    return "uv_getnameinfo(%s, flags=%d = %s)" % ("::1" if t[2] == "6" else "127.0.0.1" if t[2] == "4" else
+                                                  "sa_family %s" % t[2], f, names)
 
 
 def kind_monitor(case, line):
     """The property-level rule: name lookups are slow I/O (and land in the slow queue, so the cap
     applies), nothing else is."""
     f = line.split()
+    if len(f) == 2 and f[0].startswith("rejected"):
+        # a call the API refuses is not a request: nothing may stay registered with the loop
+        if f[0] != "rejected-22":
+            return "%s with an unsupported address family returned %s, expected UV_EINVAL" % (describe_api(case), f[0][8:])
+        if f[1] != "reqs+0":
+            return ("%s rejected with UV_EINVAL left loop->active_reqs changed by %s: the loop stays alive "
+                    "(uv_run blocks, uv_loop_close gives UV_EBUSY) with no request in flight" % (describe_api(case), f[1][4:]))
+        return None
     if len(f) != 2:
         return "kind harness ended with %r for %s" % (line, describe_api(case))
     kind, where = f
@@ -392,6 +403,11 @@ def main():
         kenv = dict(env, C08_SCRATCH_DIR=sdir)
         ka, _, _ = vf.run_lines([hkinds], kc, env=kenv, shards=4, timeout=600)
         kb, _, _ = vf.run_lines([model, "kinds"], kc)
+        # families uv_getnameinfo rejects are not requests: the expected line is written here, not by the
+        # model (api_kind speaks about calls that are accepted)
+        if len(kb) == len(kc):
+            kb = ["rejected-22 reqs+0" if c.startswith("gni ") and c.split()[2] not in ("4", "6") else l
+                  for c, l in zip(kc, kb)]
         if len(ka) == len(kc):      # uv_queue_work's own call cannot be intercepted: kind prints as "?"
             ka = [("? " + l.split()[1]) if c == "work" and l.split()[:1] == ["c"] else l for c, l in zip(kc, ka)]
         bad = [l for l in ka if len(l.split()) != 2]
